@@ -185,10 +185,11 @@ class Infeasible(Exception):
 # ------------------------------------------------------------------------------------------------ values
 class SV:
     """Symbolic scalar value: z3 term + type (INT, BOOL, REAL, STR, TEnum, TOpt(scalar), TTuple)."""
-    __slots__ = ('t', 'ty')
+    __slots__ = ('t', 'ty', 'heap')
 
     def __init__(self, t, ty):
         self.t, self.ty = t, ty
+        self.heap = None    # Optional[reference] values: the heap view (old / loop_old) they were read from
 
     def __repr__(self):
         return f'SV({self.t}:{self.ty})'
